@@ -16,9 +16,11 @@ CLAIMS = {
         text="Every @builder method of every concrete class is executed symbolically through the real utils.builder "
              "wrapper on an arbitrary pre-state receiver (unbounded containers, arbitrary arguments); each heap write "
              "must target an object allocated in the call (frame/write), the result must be a new object "
-             "(frame/result); the only exception is the alias of an un-aliased argument (frame/arg-alias). "
+             "(frame/result); the only exception is the alias of an un-aliased argument (frame/arg-alias); every other "
+             "public method of those classes that is not a render/observer method writes to nothing that existed "
+             "before the call (frame/public). "
              "All receivers/arguments/histories are covered by induction (L-FRAME); no bound.",
-        note=TRUST + "Joiner.on/on_field/using/cross are not @builder methods and are outside the quantifier.",
+        note=TRUST + "do_join is an in-place mutator by contract (Joiner calls it on the copy made by join()).",
         design="§4.1, §5 C01"),
     "C02": dict(
         technique="contract-based deductive verification: purity (O-PURE) and determinism (O-DET) obligations per "
@@ -187,9 +189,11 @@ CLAIMS = {
              "the exception iff the specified condition holds (raise/iff), no other package exception escapes "
              "(raise/unlisted); JoinOn.validate's guard is the emptiness of tables(criterion.fields_()) minus "
              "(sources u joined items u item) (join/validate) and do_join calls it with FROM + UPDATE table + CTEs "
-             "(join/reach); the set-operation arity guard compares the select-list lengths (setop/arity).",
-        note=TRUST + "Set membership by ==/hash relies on C17 (hash coherence). RETURNING from a foreign table "
-                     "(_validate_returning_term) is covered only by raise/unlisted.",
+             "(join/reach); sources compared by the set difference hash coherently (join/hash-coherence = C17 eq/hash); "
+             "PostgreSQL rejects a RETURNING term per field whose table is neither target nor source "
+             "(returning/foreign); the set-operation arity guard compares the select-list lengths (setop/arity).",
+        note=TRUST + "join/validate and returning/foreign are structural contracts on the symbolic guard of the real "
+                     "function (which sets are subtracted, which memberships are tested), not semantic equivalences.",
         design="§5 C14"),
     "C15": dict(
         technique="contract-based deductive verification: exceptional postcondition of every __getattr__ for the "
